@@ -123,12 +123,14 @@ func RecordFailure(name string, f *Failure, c interface{}) {
 }
 
 // Register makes a check replayable by name.
-func Register(name string, fn func(json.RawMessage) *Failure) { replayers[name] = fn }
+func Register(name string, fn func([]byte) *Failure) {
+	replayers[name] = func(r json.RawMessage) *Failure { return fn([]byte(r)) }
+}
 
 // Prop builds a rapid property from generator, checker and classifier and
 // registers a replayer for it.
 func Prop[C any](name string, gen func(*rapid.T) C, check func(C) *Failure, classify func(C) Class, sample func(C) interface{}) func(*rapid.T) {
-	Register(name, func(raw json.RawMessage) *Failure {
+	Register(name, func(raw []byte) *Failure {
 		var c C
 		if err := json.Unmarshal(raw, &c); err != nil {
 			return Failf("harness:bad-replay", "cannot decode case: %v", err)
